@@ -1,6 +1,6 @@
 # Builds the verification engines from /repo's current working tree.
 REPO ?= /repo
-B := build
+B ?= build
 CXX := g++
 COMMON := -std=c++17 -I$(REPO)/inc -Isrc -fno-access-control -DCAPPUCCINO_VERIF_HOOKS -pthread -Wall -Wno-unused-function
 PLAIN := -O2
